@@ -346,6 +346,10 @@ pub async fn run_step(ldap: &mut Ldap, other: &mut Ldap, step: &Step, tok: u64, 
                 Some(l) => format!("hold{}:{}:{}", n, k, l),
                 None => format!("hold{}:{}", n, k),
             };
+            if tok % 2 == 1 {
+                // a timeout that never gets the chance to fire: the early finish() is all that ends this Search
+                ldap.with_timeout(Duration::from_secs(3600));
+            }
             obs.outcome = read_all(ldap, vec![], &format!("op={},b={}", tok, b), Some(*j)).await;
         }
         Step::Paged(n, p, behind) => {
@@ -354,6 +358,9 @@ pub async fn run_step(ldap: &mut Ldap, other: &mut Ldap, step: &Step, tok: u64, 
         }
         Step::PagedEarly(n, p, j, behind) => {
             let adapters: Vec<Box<dyn Adapter<'static, String, Vec<String>>>> = if *behind { vec![Box::new(EntriesOnly::new()), Box::new(PagedResults::new(*p))] } else { vec![Box::new(PagedResults::new(*p))] };
+            if tok % 2 == 1 {
+                ldap.with_timeout(Duration::from_secs(3600));
+            }
             obs.outcome = read_all(ldap, adapters, &format!("op={},b=ph{}", tok, n), Some(*j)).await;
         }
         Step::TimeoutSingle(late) => {
